@@ -1,36 +1,45 @@
 --------------------------- MODULE MultiContract ---------------------------
 (* C12 contract for the slot-indexed protocols (Multi-Paxos, Flexible Paxos), *)
-(* over observable state only: per node the public log (entries <<term,cmd>>) *)
+(* over observable state only: per node the public log (entries <<term,cmd,_>>)*)
 (* and log.commit_index, the commands applied to its state machine, the       *)
 (* submit() futures [cmd, idx] (idx = -1 while pending, else the index the    *)
 (* future resolved with) and the set of commands clients submitted.           *)
 (* A node "reports a decided value for slot s" iff s <= commit_index; the     *)
 (* value is the command of log entry s.                                       *)
+(* Every clause is given as the set of its violation instances (slots, or     *)
+(* future numbers); the clause holds iff the set is empty.  The trace spec    *)
+(* reports every instance once, so that a new violation in another slot is    *)
+(* judged on its own and cannot hide behind an earlier one.                   *)
 EXTENDS Integers, Sequences, FiniteSets
 
 Pending == -1
 Cmd(lg, s) == lg[s][2]
+Reports(lg, cm, i, s) == s >= 1 /\ s <= cm[i] /\ s <= Len(lg[i])        \* node i reports a decision for slot s
+Slots(cm) == UNION { 1..cm[i] : i \in DOMAIN cm }
 
 \* any two nodes that report a decided value for the same slot report the same value
-Agreement(logs, commits) ==
-    \A i, j \in DOMAIN logs : \A s \in 1..commits[i] :
-        (s <= commits[j] /\ s <= Len(logs[i]) /\ s <= Len(logs[j])) => Cmd(logs[i], s) = Cmd(logs[j], s)
+AgreementBad(logs, commits) ==
+    { s \in Slots(commits) : \E i, j \in DOMAIN logs :
+        Reports(logs, commits, i, s) /\ Reports(logs, commits, j, s) /\ Cmd(logs[i], s) # Cmd(logs[j], s) }
+Agreement(logs, commits) == AgreementBad(logs, commits) = {}
 
 \* that value was proposed (submitted) by some client
-Validity(logs, commits, submitted) ==
-    \A i \in DOMAIN logs : \A s \in 1..commits[i] : s <= Len(logs[i]) => Cmd(logs[i], s) \in submitted
+ValidityBad(logs, commits, submitted) ==
+    { s \in Slots(commits) : \E i \in DOMAIN logs : Reports(logs, commits, i, s) /\ Cmd(logs[i], s) \notin submitted }
+Validity(logs, commits, submitted) == ValidityBad(logs, commits, submitted) = {}
 
 \* a reported decision never changes (nor disappears)
-Stability(logs, commits, logs2, commits2) ==
-    \A i \in DOMAIN logs : \A s \in 1..commits[i] :
-        s <= Len(logs[i]) => (s <= commits2[i] /\ s <= Len(logs2[i]) /\ Cmd(logs2[i], s) = Cmd(logs[i], s))
+StabilityBad(logs, commits, logs2, commits2) ==
+    { s \in Slots(commits) : \E i \in DOMAIN logs :
+        Reports(logs, commits, i, s) /\ ~(Reports(logs2, commits2, i, s) /\ Cmd(logs2[i], s) = Cmd(logs[i], s)) }
+Stability(logs, commits, logs2, commits2) == StabilityBad(logs, commits, logs2, commits2) = {}
 
 \* a submit() future resolves with the decided value: the index it resolved with holds the
 \* client's own command at every node that reports a decision for that index
-FutureTruth(logs, commits, futs) ==
-    \A k \in DOMAIN futs : futs[k].idx # Pending =>
-        \A i \in DOMAIN logs : (futs[k].idx <= commits[i] /\ futs[k].idx <= Len(logs[i]) /\ futs[k].idx >= 1)
-                                  => Cmd(logs[i], futs[k].idx) = futs[k].cmd
+FutureTruthBad(logs, commits, futs) ==
+    { k \in DOMAIN futs : futs[k].idx # Pending /\ \E i \in DOMAIN logs :
+        Reports(logs, commits, i, futs[k].idx) /\ Cmd(logs[i], futs[k].idx) # futs[k].cmd }
+FutureTruth(logs, commits, futs) == FutureTruthBad(logs, commits, futs) = {}
 
 \* fault-free clause at quiescence: every command submitted to the established leader is decided
 \* and applied at every node, and its future resolved
